@@ -686,7 +686,28 @@ func (w *World) scriptCutTile() {
 		return
 	}
 	ticket := w.tickets[len(w.tickets)-1]
-	if ticket.n != n1 || ckpt(n1, n2).code != 200 {
+	if ticket.n != n1 {
+		return
+	}
+	// sometimes a first upload to n1 dies on the partial data tile (or on the
+	// partial hash tile) of its last package: nothing of that package may later
+	// be taken for complete
+	if v := r.Intn(3); v > 0 {
+		part := "/tile/entries/"
+		if v == 2 {
+			part = "/tile/0/"
+		}
+		w.failUploadMatch = func(key string) bool {
+			return strings.Contains(key, part) && strings.Contains(key, ".p/")
+		}
+		up0 := entries(0, n1, nil, "")
+		up0.faulted = true
+		if w.failUploadMatch == nil {
+			w.sim.Probe("script.partial-upload-failed")
+		}
+		w.failUploadMatch = nil
+	}
+	if ckpt(n1, n2).code != 200 {
 		return
 	}
 	w.failNextMirrorCommit = true
